@@ -182,6 +182,44 @@ def run_part3(item):
     return res
 
 
+# --- part 4: beyond the small bounds (a few larger shapes) --------------------------------------
+
+def run_part4(item):
+    which, seed = item
+    res = _res()
+    paths = ["/'g'/'c%d'" % i for i in range(6)]
+    types = ['Int8', 'Int32', 'String', 'DoubleFloat', 'TimeStamp', 'Uint16']
+    if which == 'wide':
+        # six channels, five values, four chunks; contiguous, and interleaved without the string channel; padded metadata
+        for pad in (0, 3, 17):
+            objs = [(p, full(t, 5)) for p, t in zip(paths, types)]
+            _exec(res, [G.seg(objs, chunks=4, pad=pad), G.seg([(paths[1], ['SAME']), (paths[2], ['NODATA'])], newlist=False, chunks=3, pad=pad)],
+                  seed, {'part': 4, 'shape': 'wide'}, True)
+            objs_il = [(p, full(t, 4)) for p, t in zip(paths, types) if t != 'String']
+            _exec(res, [G.seg(objs_il, chunks=5, interleaved=True, pad=pad)], seed, {'part': 4, 'shape': 'wide-interleaved'}, True)
+    elif which == 'long':
+        # 150 segments: a header, 99 metadata-less repeats, an append-mode change, 49 more repeats
+        h = [G.seg([(paths[0], full('Int8', 2)), (paths[1], full('Int32', 1)), (paths[2], full('String', 1))])]
+        h += [G.seg([], meta=False, chunks=1 + (i % 2)) for i in range(99)]
+        h.append(G.seg([(paths[1], full('Int32', 3)), (paths[3], full('DoubleFloat', 1))], newlist=False))
+        h += [G.seg([], meta=False) for _ in range(49)]
+        _exec(res, h, seed, {'part': 4, 'shape': 'long'}, True)
+    elif which == 'strings':
+        # long, empty and multi-byte strings as data and as property values
+        vals = ['', 'x' * 300, '日本語' * 40, 'a', '', 'é' * 129]
+        hx = [v.encode('utf-8').hex() for v in vals]
+        props = [['long', 'String', ('y' * 1000).encode().hex()], ['empty', 'String', ''], ['', 'String', 'name-is-empty'.encode().hex()]]
+        h = [G.seg([('/', ['NODATA'], props), (paths[2], ['FULL', 'String', len(vals), sum(len(x) // 2 for x in hx), hx], props)], chunks=3)]
+        _exec(res, h, seed, {'part': 4, 'shape': 'strings'}, True)
+    elif which == 'order':
+        # channels before their group, root last, a group without channels, channels without group object
+        h = [G.seg([(paths[0], full('Int8', 1)), ("/'h'/'x'", full('Int16', 2)), ("/'g'", ['NODATA'], [['p', 'Int32', '01000000']]),
+                    ("/'lonely'", ['NODATA']), ('/', ['NODATA'], [['r', 'Boolean', '01']])]),
+             G.seg([("/'h'/'y'", full('Int16', 1)), ("/'h'/'x'", ['SAME']), ("/'h'", ['NODATA'], [['late', 'String', '6f6b']])], newlist=False)]
+        _exec(res, h, seed, {'part': 4, 'shape': 'order'}, True)
+    return res
+
+
 # --- execution -------------------------------------------------------------------------
 
 def _res():
@@ -229,7 +267,7 @@ def run(ctx):
         for first in range(len(_labs2(ctx.tier, depth))):
             items.append((first, depth, ts, ctx.tier, seed))
     r2 = merge(ctx.map(run_part2, items, chunksize=2))
-    r3 = merge(ctx.map(run_part3, [(t, seed) for t in G.PROP_TYPES]))
+    r3 = merge(ctx.map(run_part3, [(t, seed) for t in G.PROP_TYPES]) + ctx.map(run_part4, [(w, seed) for w in ('wide', 'long', 'strings', 'order')]))
     m = merge([{k: r[k] for k in ('counters', 'outcomes', 'violations', 'samples')} for r in (r1, r2, r3)])
     vac = []
     if not (r1['counters'].get('files') and r2['counters'].get('files') and r3['counters'].get('files')):
